@@ -121,3 +121,36 @@ Fixpoint lambda_index (gs : list segment) (j : nat) : nat :=
   | g :: _, O => List.length (g_glue g) + 1 + List.length (g_gap g)
   | g :: r, S j' => List.length (seg_toks g) + lambda_index r j'
   end.
+
+(* the pieces of a segment the statements speak about *)
+Definition lam_tok (g : segment) : tok := mkTok (g_lrow g) KName "lambda".
+(* the token list handed to CPython's parser for the segment's lambda *)
+Definition ext_of (g : segment) : list tok := lam_tok g :: filter not_comment (g_body g).
+(* does the argument contain a line break (then the scan stops after it) *)
+Definition seg_saw (g : segment) : bool := existsb is_nl (filter not_comment (g_body g)).
+(* index of the segment's `lambda` token when the segment starts at index i *)
+Definition seg_start (g : segment) (i : nat) : nat := i + List.length (g_glue g) + 1 + List.length (g_gap g).
+
+(* after the last segment: its argument had a line break, or the rest of the line is quiet *)
+Fixpoint end_ok (gs : list segment) (tail : list tok) : bool :=
+  match gs with
+  | [] => false
+  | [g] => seg_saw g || tail_ok tail
+  | _ :: r => end_ok r tail
+  end.
+
+(* the segment's lambda is on row L, called by [caller], and parsed to the parameters [args] *)
+Definition seg_matches (P : parse_fn) (L : nat) (caller : string) (args : list string) (g : segment) : bool :=
+  Nat.eqb (g_lrow g) L && (String.eqb (g_name g) caller
+  && match P (ext_of g) with PArgs a => strs_eqb a args | _ => false end).
+Definition seg_parsed (P : parse_fn) (g : segment) : bool :=
+  match P (ext_of g) with PArgs _ => true | _ => false end.
+
+(* all hypotheses of the supported-layout theorem, as one boolean *)
+Definition supported_layoutb (P : parse_fn) (L : nat) (caller : string) (args : list string)
+           (gs1 : list segment) (g0 : segment) (gs2 : list segment) (tail : list tok) : bool :=
+  segs_ok true ["lambda"] (gs1 ++ g0 :: gs2)
+  && forallb (seg_parsed P) (gs1 ++ g0 :: gs2)
+  && end_ok (gs1 ++ g0 :: gs2) tail
+  && seg_matches P L caller args g0
+  && forallb (fun g => negb (seg_matches P L caller args g)) (gs1 ++ gs2).
